@@ -140,34 +140,34 @@ func c01r1(r *R) {
 	// function → what → reason. A "*" function means any function of the request path.
 	type key struct{ fn, what string }
 	allowed := map[key]string{
-		{"(*martian.proxyConn).readRequest", "field:TLS"}:                         "not forwarded: TLS state of the client session",
-		{"(*martian.proxyConn).readRequest", "field:RemoteAddr"}:                  "not forwarded: client address",
-		{"(*martian.proxyConn).readRequest", "field:URL.Host"}:                    "origin-form request: authority taken from Host, only when empty (R4 checks the guard)",
-		{"martian.fixConnectReqContentLength", "field:ContentLength"}:             "CONNECT has no body: -1, for CONNECT only",
-		{"(*martian.Proxy).fixRequestScheme", "field:URL.Scheme"}:                 "scheme fix-up (R6)",
-		{"(martian.proxyHandler).ServeHTTP", "field:Body"}:                        "handler mode: NoBody when ContentLength is 0",
-		{"(martian.proxyHandler).ServeHTTP", "field:Close"}:                       "handler mode: connection management is net/http's",
-		{"(martian.proxyHandler).handleRequest", "field:Proto"}:                   "handler mode: outgoing request is HTTP/1.1 (not on the wire to the next hop as the client's version)",
-		{"(martian.proxyHandler).handleRequest", "field:ProtoMajor"}:              "handler mode",
-		{"(martian.proxyHandler).handleRequest", "field:ProtoMinor"}:              "handler mode",
-		{"(martian.proxyHandler).handleRequest", "field:RequestURI"}:              "handler mode: client requests must not carry RequestURI",
-		{"(*martian/header.ViaModifier).ModifyRequest", "field:Close"}:            "loop refusal: the connection is closed after the 400",
-		{"(*martian/header.ViaModifier).ModifyRequest", "header:Set Via"}:         "documented: one Via element appended",
-		{"martian/header.NewForwardedModifier$1", "header:Set X-Forwarded-Proto"}: "documented: filled when absent",
-		{"martian/header.NewForwardedModifier$1", "header:Set X-Forwarded-Host"}:  "documented: filled when absent",
-		{"martian/header.NewForwardedModifier$1", "header:Set X-Forwarded-Url"}:   "documented: filled when absent",
-		{"martian/header.NewForwardedModifier$1", "header:Set X-Forwarded-For"}:   "documented: client address appended",
-		{"martian/header.NewBadFramingModifier$1", "header:Set Content-Length"}:   "framing fix: equal duplicates collapsed",
-		{"martian/header.NewBadFramingModifier$1", "header:Del Content-Length"}:   "framing fix: chunked wins over Content-Length",
-		{"(*martian.proxyConn).handle", "header:Set Connection"}:                  "documented: re-added for an upgrade request (R4)",
-		{"(*martian.proxyConn).handle", "header:Set Upgrade"}:                     "documented: re-added for an upgrade request (R4)",
-		{"(martian.proxyHandler).handleRequest", "header:Set Connection"}:         "documented: re-added for an upgrade request (R4)",
-		{"(martian.proxyHandler).handleRequest", "header:Set Upgrade"}:            "documented: re-added for an upgrade request (R4)",
-		{"(*martian.proxyConn).handleConnectRequest", "header:Del X-Martian-Terminate-Tls"}:   "internal control header, never forwarded",
-		{"(martian.proxyHandler).handleConnectRequest", "header:Del X-Martian-Terminate-Tls"}: "internal control header, never forwarded",
-		{"(*forwarder.HTTPProxy).setBasicAuth", "header:Set Authorization"}:                   "documented: site credentials (C06)",
-		{"forwarder.setEmptyUserAgent", "header:Set User-Agent"}:                              "documented: no User-Agent is invented (R4 checks value and guard)",
-		{"(*forwarder.HTTPProxy).injectKerberosSPNEGOAuthentication$1", "header:Set Authorization"}:                    "credentials (C06)",
+		{"(*martian.proxyConn).readRequest", "field:TLS"}:                                                             "not forwarded: TLS state of the client session",
+		{"(*martian.proxyConn).readRequest", "field:RemoteAddr"}:                                                      "not forwarded: client address",
+		{"(*martian.proxyConn).readRequest", "field:URL.Host"}:                                                        "origin-form request: authority taken from Host, only when empty (R4 checks the guard)",
+		{"martian.fixConnectReqContentLength", "field:ContentLength"}:                                                 "CONNECT has no body: -1, for CONNECT only",
+		{"(*martian.Proxy).fixRequestScheme", "field:URL.Scheme"}:                                                     "scheme fix-up (R6)",
+		{"(martian.proxyHandler).ServeHTTP", "field:Body"}:                                                            "handler mode: NoBody when ContentLength is 0",
+		{"(martian.proxyHandler).ServeHTTP", "field:Close"}:                                                           "handler mode: connection management is net/http's",
+		{"(martian.proxyHandler).handleRequest", "field:Proto"}:                                                       "handler mode: outgoing request is HTTP/1.1 (not on the wire to the next hop as the client's version)",
+		{"(martian.proxyHandler).handleRequest", "field:ProtoMajor"}:                                                  "handler mode",
+		{"(martian.proxyHandler).handleRequest", "field:ProtoMinor"}:                                                  "handler mode",
+		{"(martian.proxyHandler).handleRequest", "field:RequestURI"}:                                                  "handler mode: client requests must not carry RequestURI",
+		{"(*martian/header.ViaModifier).ModifyRequest", "field:Close"}:                                                "loop refusal: the connection is closed after the 400",
+		{"(*martian/header.ViaModifier).ModifyRequest", "header:Set Via"}:                                             "documented: one Via element appended",
+		{"martian/header.NewForwardedModifier$1", "header:Set X-Forwarded-Proto"}:                                     "documented: filled when absent",
+		{"martian/header.NewForwardedModifier$1", "header:Set X-Forwarded-Host"}:                                      "documented: filled when absent",
+		{"martian/header.NewForwardedModifier$1", "header:Set X-Forwarded-Url"}:                                       "documented: filled when absent",
+		{"martian/header.NewForwardedModifier$1", "header:Set X-Forwarded-For"}:                                       "documented: client address appended",
+		{"martian/header.NewBadFramingModifier$1", "header:Set Content-Length"}:                                       "framing fix: equal duplicates collapsed",
+		{"martian/header.NewBadFramingModifier$1", "header:Del Content-Length"}:                                       "framing fix: chunked wins over Content-Length",
+		{"(*martian.proxyConn).handle", "header:Set Connection"}:                                                      "documented: re-added for an upgrade request (R4)",
+		{"(*martian.proxyConn).handle", "header:Set Upgrade"}:                                                         "documented: re-added for an upgrade request (R4)",
+		{"(martian.proxyHandler).handleRequest", "header:Set Connection"}:                                             "documented: re-added for an upgrade request (R4)",
+		{"(martian.proxyHandler).handleRequest", "header:Set Upgrade"}:                                                "documented: re-added for an upgrade request (R4)",
+		{"(*martian.proxyConn).handleConnectRequest", "header:Del X-Martian-Terminate-Tls"}:                           "internal control header, never forwarded",
+		{"(martian.proxyHandler).handleConnectRequest", "header:Del X-Martian-Terminate-Tls"}:                         "internal control header, never forwarded",
+		{"(*forwarder.HTTPProxy).setBasicAuth", "header:Set Authorization"}:                                           "documented: site credentials (C06)",
+		{"forwarder.setEmptyUserAgent", "header:Set User-Agent"}:                                                      "documented: no User-Agent is invented (R4 checks value and guard)",
+		{"(*forwarder.HTTPProxy).injectKerberosSPNEGOAuthentication$1", "header:Set Authorization"}:                   "credentials (C06)",
 		{"(*forwarder.HTTPProxy).injectKerberosUpstreamProxyAuthorizationHeader$1", "header:Set Proxy-Authorization"}: "credentials for the upstream hop (C06)",
 	}
 	used := map[key]bool{}
